@@ -163,7 +163,7 @@ func (s *MediaSegment) Fragmentify(timescale uint64, trex *TrexBox, duration uin
 	outFragments := make([]*Fragment, 0)
 	var of *Fragment
 
-	var cumDur uint32 = 0
+	var cumDur uint64 = 0    // 64 bits: a few long samples may add up to more than 32 bits
 	startNewFragment := true // A zero duration sample must not start a new fragment by itself
 
 	for _, inFrag := range inFragments {
@@ -188,8 +188,8 @@ func (s *MediaSegment) Fragmentify(timescale uint64, trex *TrexBox, duration uin
 			if err != nil {
 				return nil, err
 			}
-			cumDur += s.Dur
-			if cumDur >= duration {
+			cumDur += uint64(s.Dur)
+			if cumDur >= uint64(duration) {
 				// fmt.Printf("Wrote fragment with duration %d\n", cumDur)
 				cumDur = 0
 				startNewFragment = true
